@@ -164,6 +164,51 @@ def decrypt_site(rc1: int, o1: str, rc2: int, o2: str, os1: bool, os2: bool):
     return ok, res is not None, "res=%r exc=%r" % (res, exc)
 
 
+# ---- metadata verification site -----------------------------------------------------------------
+from saml2_tophat import md, BINDING_HTTP_REDIRECT                      # noqa: E402
+from saml2_tophat.mdstore import MetaDataExtern                          # noqa: E402
+_ED = md.EntityDescriptor(entity_id="urn:verif:rogue", id="id-md1", idpsso_descriptor=[md.IDPSSODescriptor(
+    protocol_support_enumeration=samlp.NAMESPACE,
+    single_sign_on_service=[md.SingleSignOnService(binding=BINDING_HTTP_REDIRECT, location="http://rogue.example.org/sso")])],
+    signature=sigver.pre_signature_part("id-md1"))
+_MDTEXT = "%s" % _ED
+
+
+class _R:
+    status_code = 200
+    content = _MDTEXT
+
+
+class _H:
+    def send(self, url, **kw):
+        return _R()
+
+
+def metadata_site(f1: int, again: bool):
+    """Signed remote metadata with a configured verification certificate: the tool run that
+    verifies it misbehaves according to the catalogue; afterwards the *same metadata object* (an
+    application may keep it, MDX re-queries it) serves the entity only if success was reported."""
+    procmodel.Script.reset([FAULTS[f1], FAULTS[f1]])
+    m = MetaDataExtern(None, "http://md.example.org/x.xml", SEC, "cert.pem", _H(), node_name="urn:oasis:names:tc:SAML:2.0:metadata:EntityDescriptor")
+    res = None
+    exc = None
+    for _ in range(2 if again else 1):
+        try:
+            res = m.load()
+        except Exception as e:
+            exc = e
+    served = "urn:verif:rogue" in m.keys()
+    try:
+        srv = m.service("urn:verif:rogue", "idpsso_descriptor", "single_sign_on_service", BINDING_HTTP_REDIRECT)
+    except Exception:
+        srv = None
+    good = FAULT_OK[f1]
+    ok = (served == good) and (bool(srv) == good)
+    if not good:
+        ok = ok and (res is not True)
+    return ok, True, "served=%s res=%r exc=%r" % (served, res, exc)
+
+
 _NF = len(FAULTS)
 CONDITIONS = [
     Cond(name="verify_site", fn="verify_site",
@@ -202,6 +247,13 @@ CONDITIONS = [
          functions=["sigver.SecurityContext.decrypt_keys", "sigver.CryptoBackendXmlSec1.decrypt", "sigver.CryptoBackendXmlSec1._run_xmlsec"],
          bounds="two configured key files; per invocation return code in [-64,255], output text <= 3 chars (empty = nothing decrypted), not startable"),
 ]
+
+CONDITIONS.append(
+    Cond(name="metadata_site", fn="metadata_site", params=[("f1", "int"), ("again", "bool")], pre=["0 <= f1 < %d" % _NF],
+         partitions={"quick": [{}]}, timeout={"quick": 400, "thorough": 900}, path_timeout=60,
+         functions=["mdstore.MetaDataExtern.load", "mdstore.InMemoryMetaData.parse_and_check_signature", "sigver.SecurityContext.verify_signature",
+                    "sigver.CryptoBackendXmlSec1.validate_signature/_run_xmlsec"],
+         bounds="13-entry fault catalogue at the metadata verification invocation; the metadata object queried afterwards, load attempted once or twice"))
 
 ASSUMPTIONS = [
     "the xmlsec1 process is modelled at the Popen / --output temporary file boundary (veriflib/procmodel.py): every observable of a run "
